@@ -6,7 +6,7 @@
 From Coq Require Import List Arith ZArith Bool.
 From VBase Require Import FieldOps ZpOps.
 From VModel Require Import Polynom.
-From VProofs Require Import PolyBase PolyArith PolyUtils.
+From VProofs Require Import PolyBase PolyArith PolyUtils PolyDiv PolyRoots PolyInterp PolyInst.
 Import ListNotations.
 Local Open Scope nat_scope.
 
@@ -102,6 +102,113 @@ Theorem C20_mul_acc_spec : forall a b c,
   (mul_acc O a b c <> Panic <-> length a = length b).
 Proof. exact (mul_acc_spec O L). Qed.
 
+(* ---------------------------------------------------------------- synthetic division by x^a - b *)
+(* in-place layout: `q` is the slice after the call (quotient in the low len-a entries, the top a entries zero),
+   `r` the discarded remainder: for a = 1 the final carry `c`, for a >= 2 the low a entries before the shift *)
+Theorem C20_syn_div_in_place_spec : forall p a b q r, syn_div_in_place_full O p a b = Ok (q, r) ->
+  (forall x, peval O p x = fadd O (fmul O (peval O q x) (fsub O (fpow O x a) b)) (peval O r x)) /\
+  length q = length p /\ length r = a /\ skipn (length p - a) q = repeat zero a.
+Proof. exact (syn_div_full_spec O L). Qed.
+
+Theorem C20_syn_div_spec : forall p a b q, syn_div O p a b = Ok q ->
+  length q = length p /\ skipn (length p - a) q = repeat zero a /\
+  exists r, length r = a /\
+    forall x, peval O p x = fadd O (fmul O (peval O q x) (fsub O (fpow O x a) b)) (peval O r x).
+Proof. exact (syn_div_spec O L). Qed.
+
+(* exact Panic domain = the three documented conditions *)
+Theorem C20_syn_div_total_iff : forall p a b, syn_div O p a b <> Panic <-> (a <> 0 /\ b <> zero /\ a < length p).
+Proof. exact (syn_div_public_total_iff O L). Qed.
+
+(* ---------------------------------------------------------------- synthetic division by a list of roots *)
+Theorem C20_syn_div_roots_spec : forall p roots q, syn_div_roots_in_place O p roots = Ok q ->
+  length q = length p /\
+  exists rem, length rem = length roots /\
+    forall x, peval O p x = fadd O (fmul O (peval O q x) (pprod O roots x)) (peval O rem x).
+Proof. exact (syn_div_roots_spec O L). Qed.
+
+Theorem C20_syn_div_roots_total_iff : forall p roots,
+  syn_div_roots_in_place O p roots <> Panic <-> (roots <> [] /\ length roots < length p).
+Proof. exact (syn_div_roots_total_iff O). Qed.
+
+(* ---------------------------------------------------------------- long division *)
+(* `aw` is the working copy of the dividend after the loop; the remainder is its first `degree_of b` entries *)
+Theorem C20_div_spec : forall a b q aw, div_full O a b = Ok (q, aw) ->
+  (forall x, peval O a x = fadd O (fmul O (peval O q x) (peval O b x)) (peval O (firstn (degree_of O b) aw) x)) /\
+  degree_of O b < length b /\ nth (degree_of O b) b zero <> zero /\ degree_of O b <= degree_of O a /\
+  (a <> [] -> length q = degree_of O a - degree_of O b + 1) /\ (a = [] -> q = []).
+Proof. exact (div_full_spec O L). Qed.
+
+Theorem C20_div_quot_rem : forall a b q, div O a b = Ok q ->
+  exists r, length r < length b /\ length r <= degree_of O b /\
+            forall x, peval O a x = fadd O (fmul O (peval O q x) (peval O b x)) (peval O r x).
+Proof. exact (div_spec O L). Qed.
+
+(* exact Panic domain (repaired code): the divisor is a non-zero polynomial of degree <= degree of the dividend *)
+Theorem C20_div_total_iff : forall a b,
+  div O a b <> Panic <-> (degree_of O b <= degree_of O a /\ nth (degree_of O b) b zero <> zero).
+Proof. exact (div_total_iff O L). Qed.
+
+(* ---------------------------------------------------------------- expansion from roots *)
+(* never panics; the uninitialised vector's content (`init`) is irrelevant; monic, length n+1, = prod (x - xs_i) *)
+Theorem C20_poly_from_roots_spec : forall xs,
+  exists p, poly_from_roots O xs = Ok p /\ length p = S (length xs) /\ last p zero = one /\
+            (forall x, peval O p x = pprod O xs x) /\
+            (forall init, length init = S (length xs) -> poly_from_roots_init O init xs = Ok p).
+Proof.
+  intros xs. exists (roots_poly O xs). split. apply (poly_from_roots_spec O).
+  split. apply roots_poly_length. split. apply (roots_poly_monic O).
+  split. apply (roots_poly_peval O L). intros init H. now apply (fill_zero_roots_spec O).
+Qed.
+
+Theorem C20_poly_from_roots_vanishes : forall xs p r, poly_from_roots O xs = Ok p -> In r xs -> peval O p r = zero.
+Proof.
+  intros xs p r H Hin. rewrite (poly_from_roots_spec O) in H. inversion H; subst.
+  rewrite (roots_poly_peval O L). now apply (pprod_root O L).
+Qed.
+
+(* ---------------------------------------------------------------- interpolation (repaired code) *)
+(* distinct X coordinates, ZERO INCLUDED: the result has length n and passes through every point;
+   with remove_leading_zeros = true the result is remove_leading_zeros of it (same polynomial, length <= n) *)
+Theorem C20_interpolate_spec : forall dbg xs ys, NoDup xs -> length ys = length xs ->
+  exists p, interpolate O dbg xs ys false = Ok p /\ length p = length xs /\
+            interpolate O dbg xs ys true = Ok (remove_leading_zeros O p) /\
+            forall m, m < length xs -> peval O p (nth m xs zero) = nth m ys zero.
+Proof. exact (interpolate_spec O L). Qed.
+
+(* eval_many o interpolate = id on distinct points *)
+Theorem C20_eval_many_interpolate : forall dbg xs ys p, NoDup xs -> length ys = length xs ->
+  interpolate O dbg xs ys false = Ok p -> eval_many O p xs = ys.
+Proof.
+  intros dbg xs ys p Hnd Hl Hp. destruct (interpolate_spec O L dbg xs ys Hnd Hl) as (p' & H1 & _ & _ & H4).
+  rewrite Hp in H1. inversion H1; subst p'. rewrite (eval_many_spec O L).
+  apply (list_ext _ _ zero). now rewrite map_length.
+  rewrite map_length. intros i Hi. rewrite (nth_indep _ zero (peval O p zero)) by now rewrite map_length.
+  rewrite map_nth. now apply H4.
+Qed.
+
+(* exact Panic domain in the debug profile (duplicates in xs do not panic); release profile: next theorem *)
+Theorem C20_interpolate_total_iff : forall xs ys rlz,
+  interpolate O true xs ys rlz <> Panic <-> length xs = length ys.
+Proof. exact (interpolate_total_iff O L). Qed.
+
+(* release profile: no debug_assert; panics exactly when ys is shorter than xs (index `ys[i]`) *)
+Theorem C20_interpolate_release_total_iff : forall xs ys rlz,
+  interpolate O false xs ys rlz <> Panic <-> length xs <= length ys.
+Proof. exact (interpolate_release_total_iff O L). Qed.
+
+(* DEFECT (repaired, fixes/c20-polynom-zero-x-and-empty-inputs.diff): before the repair the numerators were
+   computed with syn_div(&roots, 1, x), which asserts x != 0: every point set containing X = 0 panicked *)
+Theorem C20_interpolate_unrepaired_refuted : forall dbg xs ys rlz,
+  In zero xs -> interpolate_unrepaired O dbg xs ys rlz = Panic.
+Proof. exact (interpolate_unrepaired_zero O L). Qed.
+
+(* NOT PROVED (tested only, by the correspondence and the falsifier):
+   - interpolate_batch_spec : forall N xs ys, N >= 1 -> length xs = length ys -> all batches of length N ->
+       interpolate_batch O dbg N xs ys = Ok ps /\ forall i, nth i ps = the result of interpolate on batch i
+   - interpolate o eval_many = id on polynomials of length <= n (needs the root-counting theorem)
+   - exact division: syn_div (mul p (x^a - b)) a b = p padded (uniqueness of quotient/remainder) *)
+
 End C20.
 
 Print Assumptions C20_eval_horner.
@@ -121,3 +228,78 @@ Print Assumptions C20_power_series_spec.
 Print Assumptions C20_power_series_with_offset_spec.
 Print Assumptions C20_add_in_place_spec.
 Print Assumptions C20_mul_acc_spec.
+Print Assumptions C20_syn_div_in_place_spec.
+Print Assumptions C20_syn_div_spec.
+Print Assumptions C20_syn_div_total_iff.
+Print Assumptions C20_syn_div_roots_spec.
+Print Assumptions C20_syn_div_roots_total_iff.
+Print Assumptions C20_div_spec.
+Print Assumptions C20_div_quot_rem.
+Print Assumptions C20_div_total_iff.
+Print Assumptions C20_poly_from_roots_spec.
+Print Assumptions C20_poly_from_roots_vanishes.
+Print Assumptions C20_interpolate_spec.
+Print Assumptions C20_eval_many_interpolate.
+Print Assumptions C20_interpolate_total_iff.
+Print Assumptions C20_interpolate_release_total_iff.
+Print Assumptions C20_interpolate_unrepaired_refuted.
+
+(* ---------------------------------------------------------------- non-vacuity *)
+(* the hypothesis `FLaws O` is satisfiable: GF(7) *)
+Theorem C20_laws_inhabited : FLaws f7_ops.
+Proof. exact f7_laws. Qed.
+Print Assumptions C20_laws_inhabited.
+
+(* interpolate_batch: the unbounded statement is NOT proved (see the comment above).  Bounded sanity theorems about
+   its model over GF(7), exhaustive over the stated domains by kernel computation: it equals interpolate applied to
+   every batch, duplicates and X = 0 included, also for a second batch (the roots vector is reused). *)
+Theorem C20_interpolate_batch_agrees_GF7_N3_partial : forall x0 x1 x2 y0 y1,
+  interpolate_batch f7_ops true 3 [[x0; x1; x2]] [[y0; y1; e4]] = batchwise [[x0; x1; x2]] [[y0; y1; e4]].
+Proof. exact batch_agrees_N3. Qed.
+Print Assumptions C20_interpolate_batch_agrees_GF7_N3_partial.
+
+Theorem C20_interpolate_batch_agrees_GF7_N2_two_partial : forall x0 x1 y0 u0 u1,
+  interpolate_batch f7_ops true 2 [[x0; x1]; [u0; u1]] [[y0; e6]; [e3; e5]]
+  = batchwise [[x0; x1]; [u0; u1]] [[y0; e6]; [e3; e5]].
+Proof. exact batch_agrees_N2_two. Qed.
+Print Assumptions C20_interpolate_batch_agrees_GF7_N2_two_partial.
+
+(* instances of the theorems' hypotheses and conclusions, computed by the kernel *)
+Example ex_interpolate_zero_x :           (* distinct xs containing 0, equal lengths: Ok, and evaluates back to ys *)
+  NoDup [e0; e1; e3] /\ interpolate f7_ops true [e0; e1; e3] [e5; e0; e2] false = Ok [e5; e0; e2] /\
+  eval_many f7_ops [e5; e0; e2] [e0; e1; e3] = [e5; e0; e2] /\
+  interpolate_unrepaired f7_ops true [e0; e1; e3] [e5; e0; e2] false = Panic.
+Proof.
+  split. { repeat constructor; simpl; intuition discriminate. } vm_compute. repeat split.
+Qed.
+
+Example ex_div :                          (* (x^3+x^2+2x+2) / (x^2+2) = x+1, remainder in the working copy *)
+  div_full f7_ops [e2; e2; e1; e1] [e2; e0; e1; e0] = Ok ([e1; e1], [e0; e0; e1; e1]) /\
+  div f7_ops [e1] [e0; e0] = Panic /\ div f7_ops [e1] [e1; e1] = Panic /\ div f7_ops [] [e3] = Ok [].
+Proof. vm_compute. repeat split. Qed.
+
+Example ex_syn_div :                      (* a = 1, a = 2 with b = 1 (fast path) and b <> 1; panic classes *)
+  syn_div f7_ops [e2; e2; e1; e1] 1 e6 = Ok [e2; e0; e1; e0] /\
+  syn_div_in_place_full f7_ops [e1; e2; e3; e4; e5] 2 e1 = Ok ([e1; e4; e5; e0; e0], [e2; e6]) /\
+  syn_div_in_place_full f7_ops [e1; e2; e3; e4; e5] 2 e3 = Ok ([e4; e4; e5; e0; e0], [e6; e0]) /\
+  syn_div f7_ops [e1; e2] 0 e1 = Panic /\ syn_div f7_ops [e1; e2] 1 e0 = Panic /\ syn_div f7_ops [e1; e2] 2 e1 = Panic.
+Proof. vm_compute. repeat split. Qed.
+
+Example ex_batch_inversion :              (* zeros at the first, a middle and the last position *)
+  batch_inversion f7_ops [e0; e2; e0; e3; e0] = [e0; e4; e0; e5; e0] /\ batch_inversion f7_ops [] = [] /\
+  batch_inversion f7_ops [e0] = [e0].
+Proof. vm_compute. repeat split. Qed.
+
+Example ex_power_series_mul :
+  get_power_series f7_ops e3 5 = Ok [e1; e3; e2; e6; e4] /\ get_power_series f7_ops e3 0 = Ok [] /\
+  get_power_series_with_offset f7_ops e3 e2 3 = Ok [e2; e6; e4] /\
+  mul f7_ops [e1; e1] [e2; e0; e1] = Ok [e2; e2; e1; e1] /\ mul f7_ops [] [] = Ok [] /\
+  mul_unrepaired f7_ops [] [] = Panic /\ poly_from_roots f7_ops [e1; e2] = Ok [e2; e4; e1].
+Proof. vm_compute. repeat split. Qed.
+
+(* the same models run on canonical residues of a 64-bit prime field (what the correspondence executes) *)
+Example ex_zp :
+  interpolate (zp_ops P64) true [0; 1; 5]%Z [7; 9; 3]%Z false
+    = Ok [7; 5534023220824375299; 12912720848590209024]%Z /\
+  interpolate_batch (zp_ops 97) true 2 [[0; 1]; [3; 4]]%Z [[5; 7]; [1; 1]]%Z = Ok [[5; 2]; [1; 0]]%Z.
+Proof. vm_compute. repeat split. Qed.
